@@ -12,7 +12,8 @@ model of the validation prefix `validate_<op>` evaluated by the Lean driver.
 A second family (`unsupported`) hands every public binary operation / method that takes a tensor
 operand an operand of a TYPE it does not take (str, None, list, dict, complex / float ndarray, the
 other pyttb classes) and demands an exception; its specification is the table `SUPPORTED` below
-(no Lean model).
+(no Lean model).  A third family (`sparse_read`) reads a sparse tensor with keys whose index list has an
+out-of-range entry; its reference is the same key applied to the dense array by NumPy.
 """
 from __future__ import annotations
 
@@ -46,6 +47,13 @@ RULE = ("one call per case; operands given by shape, values small integers deriv
         "non-float factor matrices / weights, initial guesses of a class the algorithm does not take (a ttensor "
         "with fitting factors), contract of non-square matrices, larger masks whose nonzeros lie inside the data, "
         "S[region] = sptensor with an index list of another length, subdims with a region of another length. "
+        "Second list: sizes wrong mode by mode with EQUAL PRODUCTS (mttkrp factor rows, ttt contracted extents), "
+        "multiplicands of ttv / arguments of khatrirao / data of from_vector / shape arrays of another ORDER (incl. "
+        "matrices that would broadcast and singleton axes in every position), constructors given one of two coupled "
+        "arguments, one reconstruct sample for several modes, tenfun handle arity against operand count, S[subs] = v "
+        "with fewer subscript columns than modes (receiver compared). "
+        "Family `sparse_read`: S[key] with an out-of-range entry (first / middle / last) in an index list against the "
+        "same key on the dense array with NumPy; demanded where the in-range part of the region holds a nonzero. "
         "Family `unsupported`: every public binary operation / method taking a tensor operand is handed operands "
         "of a TYPE it does not take (str, None, list, dict, complex / float ndarray, each other pyttb class; "
         "receivers with and without nonzeros) and must raise - the specification is the table SUPPORTED written "
@@ -53,7 +61,12 @@ RULE = ("one call per case; operands given by shape, values small integers deriv
 ASSUMPTIONS = [
     "any Python exception is a rejection; a returned value (or None from an in-place operation) is an answer",
     "family malformed: operands are described by shape: matrices are 2-d arrays, vectors 1-d arrays, modes "
-    "integers; 3-d 'matrices' and float modes are outside the property",
+    "integers; arrays of another order are generated for ttv / ttsv multiplicands, khatrirao arguments, from_vector "
+    "data and shape arguments only; float modes are outside the property",
+    "a row / column / stacked vector of the right length counts as a vector for ttv (ktensor.ttv drops singleton "
+    "axes on purpose); the other holders' refusal of it is over-rejection",
+    "family sparse_read: an out-of-range index-list entry must be refused where the region named by the in-range "
+    "entries holds a stored nonzero; on an all-zero region pyttb answers zeros (reads by key: property C04)",
     "family unsupported: an operand kind counts as taken by an operation when the signature / documentation names "
     "it or the operation converts it on purpose (tenfun: arrays of any dtype and every class with to_tensor/full, "
     "hence also a tenmat; scale: anything with to_tenmat; dense __setitem__: NumPy's assignment conventions); "
@@ -155,6 +168,25 @@ def bad_lengths(n, others=()):
         if c != n and c >= 0 and c not in out:
             out.append(c)
     return out
+
+
+def equal_products(a, b):
+    """pairs (x, y) other than (a, b) with the same product: sizes that differ mode by mode while every count
+    computed from their product (rows of a Khatri-Rao product, columns of a matricization) still agrees"""
+    n = a * b
+    return [(x, n // x) for x in range(1, n + 1) if n % x == 0 and (x, n // x) != (a, b)]
+
+
+def squeezed(vs):
+    """shape of np.atleast_1d(np.ones(vs).squeeze())"""
+    t = [e for e in vs if e != 1]
+    return t or [1]
+
+
+def mk_nd(r, shape):
+    """array of any order (0-d included) with small nonzero integer values"""
+    n = gen.numel(shape) if shape else 1
+    return np.array([r.choice([-2, -1, 1, 2, 3]) for _ in range(n)], dtype=float).reshape(tuple(shape))
 
 
 def bad_mode_lists(N, base):
@@ -270,11 +302,20 @@ class Ttv(Op):
                                 out.append(dict(base, excl=e2, bad="exclude " + what))
                         if dims is not None and not full:
                             out.append(dict(base, excl=[0], bad="dims and exclude_dims"))
+                        # a multiplicand that is an array of another order: a column / row / stacked vector of the
+                        # right length is a vector once its singleton axes are dropped (ktensor.ttv does so; the
+                        # other holders refuse it, which is not demanded either way); a MATRIX with the right number
+                        # of rows (1, 2, R = 2, n columns - it would broadcast against the weights) is not
+                        n = vecs[j]
+                        for vs in ([n, 1], [1, n], [n, 1, 1], [n, 2], [n, 3], [n, n], [2, n], [n, 1, 2], [1, n, 2]):
+                            vsh = [[m] for m in vecs]
+                            vsh[j] = vs
+                            out.append(dict(base, vshapes=vsh, bad=None if squeezed(vs) == [n] else "multiplicand not a vector"))
         return out
 
     def run(self, c, r):
         X = mk_holder(r, c["rep"], c["shape"], c.get("nnz"))
-        vecs = [mk_vec(r, n) for n in c["vecs"]]
+        vecs = [mk_nd(r, vs) for vs in c["vshapes"]] if c.get("vshapes") else [mk_vec(r, n) for n in c["vecs"]]
         return (lambda: X.ttv(vecs, arr(c["dims"]), arr(c["excl"]))), X
 
 
@@ -386,9 +427,34 @@ class Mttkrp(Op):
                                 out.append(dict(base, U=u2, bad="factor columns"))
                     out.append(dict(base, U=Us[:-1], bad="list length"))
                     out.append(dict(base, U=Us + [Us[-1]], bad="list length"))
+                    out += self.equal_product_rows(base, s, n, rep)
                 for n, what in ((N, "mode=N"), (N + 1, "mode>N"), (-1, "mode<0"), (-N, "mode=-N")):
                     if N >= 2:
                         out.append({"rep": rep, "shape": s, "U": [[m, R] for m in s], "n": n, "nnz": None, "bad": what})
+        # the same class on shapes that are always there (pairwise distinct extents, four modes)
+        for s in ([2, 3, 4], [2, 2, 2, 3], [3, 2, 2]):
+            for rep in self.reps:
+                R = rng.choice([1, 2, 3])
+                for n in range(len(s)):
+                    base = {"rep": rep, "shape": s, "U": [[m, R] for m in s], "n": n, "nnz": None}
+                    out.append(dict(base, bad=None))
+                    out += self.equal_product_rows(base, s, n, rep)
+        return out
+
+    @staticmethod
+    def equal_product_rows(base, s, n, rep):
+        """the row counts of TWO factors other than the n-th are wrong while their product is right (sizes swapped,
+        or refactored): the Khatri-Rao product of the factors still has as many rows as the matricized tensor has
+        columns, so nothing but the per-factor test sees it"""
+        out = []
+        others = [k for k in range(len(s)) if k != n]
+        for ka, kb in itertools.combinations(others, 2):
+            for x, y in equal_products(s[ka], s[kb]):
+                u2 = [list(u) for u in base["U"]]
+                u2[ka][0], u2[kb][0] = x, y
+                out.append(dict(base, U=u2, bad="factor rows, equal product"))
+                if rep == "sparse":
+                    out.append(dict(base, U=u2, nnz=0, bad="factor rows, equal product"))
         return out
 
     def run(self, c, r):
@@ -565,6 +631,25 @@ class Ttt(Op):
                         out.append(dict(base, xd=x2, yd=d2, bad="other " + what))
                     if k == 2:
                         out.append(dict(base, yd=yd[:1], bad="number of modes"))
+                        out += self.equal_product_extents(base)
+        # contracted extents that differ mode by mode while their products agree, on shapes that are always there
+        for sa, sb, xd, yd in (([2, 3, 4], [2, 3, 5], [0, 1], [0, 1]), ([2, 3, 4], [5, 4, 2], [0, 2], [2, 1]),
+                               ([4, 2, 2, 3], [3, 2, 4], [3, 1, 0], [0, 1, 2]), ([3, 3], [3, 3], [0, 1], [1, 0])):
+            base = {"sa": sa, "sb": sb, "xd": xd, "yd": yd}
+            out.append(dict(base, bad=None))
+            out += self.equal_product_extents(base)
+        return out
+
+    @staticmethod
+    def equal_product_extents(base):
+        """two contracted extents of the other tensor swapped / refactored: the matricized product still conforms"""
+        out = []
+        t2, yd = base["sb"], base["yd"]
+        for ja, jb in itertools.combinations(yd, 2):
+            for x, y in equal_products(t2[ja], t2[jb]):
+                t3 = list(t2)
+                t3[ja], t3[jb] = x, y
+                out.append(dict(base, sb=t3, bad="extent mismatch, equal product"))
         return out
 
     def run(self, c, r):
@@ -963,6 +1048,36 @@ class Constructors(Op):
                 for L2 in (L + 1, L - 1):
                     if L2 % (sum(s) + (1 if cw else 0)) != 0:
                         out.append({"k": "from_vector", "shape": s, "n": L2, "cw": cw, "bad": "data length"})
+                # data of the right length that is not a vector: arrays of order 3, 4 with singleton axes in every
+                # position, matrices with several rows and columns, a 0-d array; rows and columns are vectors
+                for ds in ([L], [L, 1], [1, L]):
+                    out.append({"k": "vector_data", "shape": s, "dshape": ds, "cw": cw, "bad": None})
+                for ds in ([L, 1, 1], [1, L, 1], [1, 1, L], [L, 1, 1, 1], [1, 1, 1, L], []) + tuple(
+                        [a, L // a] for a in range(2, L) if L % a == 0)[:3]:
+                    out.append({"k": "vector_data", "shape": s, "dshape": ds, "cw": cw, "bad": "data not a vector"})
+            # sptensor(subs, vals, shape) with only one of subs / vals (with and without a shape)
+            for sh in (s, None):
+                for gs, gv in ((True, True), (False, False), (True, False), (False, True)):
+                    out.append({"k": "sptensor_given", "shape": sh, "subs": gs, "vals": gv, "nsubs": rng.choice([1, 2]),
+                                "bad": None if gs == gv else ("subs without vals" if gs else "vals without subs")})
+            # sptenmat(subs, vals, rdims, cdims, tshape): one of subs / vals only; either without a mode split
+            for gs, gv in ((True, True), (False, False), (True, False), (False, True)):
+                for gd in ("none", "rdims", "cdims", "both"):
+                    for gt in ((True, False) if gd == "none" else (True,)):
+                        bad = None
+                        if gs != gv:
+                            bad = "subs without vals" if gs else "vals without subs"
+                        elif gs and gd == "none":
+                            bad = "entries without a mode split"
+                        out.append({"k": "sptenmat_given", "tshape": s, "subs": gs, "vals": gv, "dims": gd != "none",
+                                    "which": gd, "tshape_given": gt, "split": rng.randint(0, N), "bad": bad})
+            # an integer ARRAY as shape: at most one axis longer than 1
+            for via in ("tensor", "sptensor", "from_vector"):
+                for ash in ([N], [N, 1], [1, N], [1, 1, N], [N, 1, 1]):
+                    out.append({"k": "shape_array", "via": via, "shape": s, "ashape": ash, "bad": None})
+                for ash in ([0, 2], [0, 3], [2, 0], [0, 2, 1], [0, 0], [N, 2], [2, N], [1, N, 2], [N, N]):
+                    if len([e for e in ash if e != 1]) > 1:
+                        out.append({"k": "shape_array", "via": via, "shape": s, "ashape": ash, "bad": "shape array with several axes"})
         return out
 
     def run(self, c, r):
@@ -1026,6 +1141,45 @@ class Constructors(Op):
             return (lambda: ttb.sptenmat(subs, vals, arr(c["rdims"]), arr(c["cdims"]), tuple(c["tshape"]), copy=c["copy"])), None
         if k == "from_vector":
             return (lambda: ttb.ktensor.from_vector(np.ones(c["n"]), tuple(c["shape"]), c["cw"])), None
+        if k == "vector_data":
+            data = mk_nd(r, c["dshape"])
+            return (lambda: ttb.ktensor.from_vector(data, tuple(c["shape"]), c["cw"])), None
+        if k == "sptensor_given":
+            s0 = c["shape"] or [2, 3]
+            cells = r.sample(gen.all_subs(s0), min(c["nsubs"], gen.numel(s0)))
+            subs = np.array(cells, dtype=int).reshape(len(cells), len(s0)) if c["subs"] else None
+            vals = mk_vec(r, len(cells)).reshape(-1, 1) if c["vals"] else None
+            shape = None if c["shape"] is None else tuple(c["shape"])
+            return (lambda: ttb.sptensor(subs, vals, shape)), None
+        if k == "sptenmat_given":
+            s0 = c["tshape"]
+            N = len(s0)
+            rd, cd = list(range(c["split"])), list(range(c["split"], N))
+            mr, mc = gen.numel([s0[d] for d in rd]), gen.numel([s0[d] for d in cd])
+            kw = {}
+            if c["subs"]:
+                kw["subs"] = np.array([[r.randrange(mr), r.randrange(mc)]], dtype=int)
+            if c["vals"]:
+                kw["vals"] = np.array([[float(r.choice([1, 2, 3]))]])
+            if c["which"] in ("rdims", "both"):
+                kw["rdims"] = arr(rd)
+            if c["which"] in ("cdims", "both"):
+                kw["cdims"] = arr(cd)
+            if c["tshape_given"]:
+                kw["tshape"] = tuple(s0)
+            return (lambda: ttb.sptenmat(**kw)), None
+        if k == "shape_array":
+            s0, ash = c["shape"], c["ashape"]
+            n = gen.numel(ash)
+            # the entries: the extents of `shape` (repeated as often as needed)
+            ext = [s0[i % len(s0)] for i in range(n)]
+            A = np.array(ext, dtype=int).reshape(tuple(ash))
+            if c["via"] == "sptensor":
+                return (lambda: ttb.sptensor(shape=A)), None
+            if c["via"] == "from_vector":
+                return (lambda: ttb.ktensor.from_vector(np.ones(2 * sum(ext)), A, False)), None
+            data = np.ones(gen.numel(ext)) if n else np.array([])
+            return (lambda: ttb.tensor(data, shape=A)), None
         raise ValueError(k)
 
 
@@ -1124,6 +1278,12 @@ class Mttkrps(Op):
                             out.append(dict(base, U=u2, bad="factor columns", pending=True))
                 out.append(dict(base, U=Us[:-1], bad="list length", pending=True))
                 out.append(dict(base, U=Us + [Us[-1]], bad="list length", pending=True))
+                # the row counts of two factors wrong, their product right
+                for ka, kb in itertools.combinations(range(N), 2):
+                    for x, y in equal_products(s[ka], s[kb])[:4]:
+                        u2 = [list(u) for u in Us]
+                        u2[ka][0], u2[kb][0] = x, y
+                        out.append(dict(base, U=u2, bad="factor rows, equal product"))
         out.append({"shape": [3], "U": [[3, 2]], "kt": False, "bad": "order < 2"})
         return out
 
@@ -1322,6 +1482,15 @@ class Reconstruct(Op):
                 out.append(dict(b, samples=[{"k": "idx", "max": 0}, {"k": "idx", "max": 0}], bad="number of samples"))
                 out.append(dict(b, modes=[m - N], samples=[{"k": "idx", "max": 0}], bad="mode<0", pending=True))
                 out.append(dict(b, modes=[m, m], samples=[{"k": "idx", "max": 0}, {"k": "idx", "max": 0}], bad="mode repeated", pending=True))
+            # ONE sample (in a list, or a bare number) for several modes / for all modes (none named)
+            one = [{"k": "idx", "max": 0}]
+            for sc in (False, True):
+                out.append({"shape": s, "modes": [0], "samples": one, "scalar": sc, "bad": None})
+                out.append({"shape": s, "modes": [N - 1], "samples": one, "scalar": sc, "bad": None})
+                for ms in ([0, 1], [1, 0], list(range(N)), [N - 1, 0]):
+                    out.append({"shape": s, "modes": ms, "samples": one, "scalar": sc, "bad": "one sample, several modes"})
+                out.append({"shape": s, "modes": None, "samples": one, "scalar": sc, "bad": "one sample, several modes"})
+            out.append({"shape": s, "modes": [0, 1], "samples": [{"k": "mat", "rows": 5, "cols": s[0]}], "bad": "one sample, several modes"})
             out.append({"shape": s, "modes": [N], "samples": [{"k": "idx", "max": 0}], "bad": "mode=N"})
             out.append({"shape": s, "modes": None, "samples": None, "bad": None})
             out.append({"shape": s, "modes": None, "samples": [{"k": "idx", "max": 0} for _ in s], "bad": None})
@@ -1336,6 +1505,8 @@ class Reconstruct(Op):
                 return np.array(sorted({0, x["max"]}), dtype=int)
             return mk_mat(r, x["rows"], x["cols"])
         samples = None if c["samples"] is None else [mk(x) for x in c["samples"]]
+        if c.get("scalar"):
+            samples = 0
         return (lambda: T.reconstruct(samples, c["modes"])), T
 
 
@@ -1457,6 +1628,14 @@ class Misc(Op):
                 out.append({"k": "viz", "shape": s, "which": which, "lens": [N + 1], "bad": "option list length"})
                 out.append({"k": "viz", "shape": s, "which": which, "lens": [N - 1], "bad": "option list length"})
             out.append({"k": "spmatrix", "shape": s, "bad": None if N == 2 else "not a matrix"})
+            # the number of arguments of the function against the number of other operands: a function of two
+            # arguments with none / two / three operands (the surplus would be dropped), of no or three arguments
+            for rep in ("dense", "sparse", "ndarray"):
+                for nargs in (0, 1, 2, 3):
+                    for no in (0, 1, 2, 3):
+                        ok = nargs == 1 or (nargs == 2 and no == 1)
+                        out.append({"k": "tenfun_arity", "shape": s, "rep": rep, "nargs": nargs, "nothers": no,
+                                    "bad": None if ok else "function arity against operand count"})
         return out
 
     def run(self, c, r):
@@ -1469,6 +1648,12 @@ class Misc(Op):
                 return mk_holder(r, c["rep"], t)
             others = [mk(t) for t in c["others"]]
             return (lambda: X.tenfun(lambda M: M.sum(axis=0), *others)), X
+        if c["k"] == "tenfun_arity":
+            X = mk_dense(r, c["shape"])
+            others = [np.ones(tuple(c["shape"])) if c["rep"] == "ndarray" else mk_holder(r, c["rep"], c["shape"])
+                      for _ in range(c["nothers"])]
+            f = [lambda: 0.0, lambda M: M.sum(axis=0), lambda x, y: x + y, lambda x, y, z: x + y + z][c["nargs"]]
+            return (lambda: X.tenfun(f, *others)), X
         if c["k"] == "viz":
             import matplotlib
             matplotlib.use("Agg")
@@ -1583,10 +1768,23 @@ class Khatrirao(Op):
                             m2 = [list(m) for m in ms]
                             m2[j][1] = C
                             out.append({"mats": m2, "rev": rev, "bad": "column count"})
+                # an argument that is not a matrix (first, later or only one), its second extent the common column
+                # count so that the column test has nothing to object to; vectors; the same through `shapes` unspoilt
+                out.append({"mats": ms, "shapes": [list(m) for m in ms], "rev": rev, "bad": None})
+                j = rng.randrange(k)
+                a, b = ms[j][0], rng.choice([1, 2, 4])
+                for nd in ([a, R, b], [a, R, 1], [a, b, R], [1, a, R], [a, R, 1, 1], [R], [a]):
+                    for jj in sorted({0, j, k - 1}):
+                        sh = [list(m) for m in ms]
+                        sh[jj] = nd
+                        out.append({"mats": ms, "shapes": sh, "rev": rev, "bad": "argument not a matrix"})
         out.append({"mats": [], "rev": False, "bad": "no matrix"})
         return out
 
     def run(self, c, r):
+        if c.get("shapes") is not None:
+            nds = [mk_nd(r, sh) for sh in c["shapes"]]
+            return (lambda: ttb.khatrirao(*nds, reverse=c["rev"])), None
         ms = [mk_mat(r, a, b) for a, b in c["mats"]]
         return (lambda: ttb.khatrirao(*ms, reverse=c["rev"])), None
 
@@ -1940,6 +2138,48 @@ class SpAssign(Op):
         return {"key": key, "rhs": c["rhs"]}
 
 
+class SpSetSubs(Op):
+    """`S[subs] = value` with a 2-d array of subscripts that has FEWER columns than the tensor has modes: rejected
+    before anything is matched against the stored subscripts or written (more columns: growth, property C04)"""
+    name = "sp_setsubs"
+    covers = ()
+
+    def gen(self, rng, tier):
+        out = []
+        shapes = SHAPES + [[2, 3], [3, 2, 2, 2]] if tier == "thorough" else rng.sample(SHAPES, 5) + [[2, 3], [2, 3, 4]]
+        for s in shapes:
+            N = len(s)
+            for nnz in (None, 0, gen.numel(s)):
+                for w in range(0, N + 2):
+                    for rows in (1, 2):
+                        for val in ("nonzero", "zero", "array"):
+                            for stored in (True, False):
+                                out.append({"shape": s, "nnz": nnz, "width": w, "rows": rows, "val": val, "stored": stored,
+                                            "bad": "fewer subscript columns than modes" if w < N else None})
+        return out
+
+    def run(self, c, r):
+        s, w = c["shape"], c["width"]
+        S = mk_sparse(r, s, c["nnz"])
+        ext = list(s) + [2] * max(0, w - len(s))
+        rows = []
+        for i in range(c["rows"]):
+            if c["stored"] and S.subs.size and i == 0:
+                # the leading columns of a stored subscript (what a matcher that does not look at the width would hit)
+                row = [int(x) for x in S.subs[r.randrange(S.subs.shape[0])]] + [0] * max(0, w - len(s))
+            else:
+                row = [r.randrange(m) for m in ext]
+            rows.append(row[:w])
+        if len(rows) == 2 and rows[0] == rows[1] and w:
+            rows[1][0] = (rows[1][0] + 1) % ext[0]
+        key = np.array(rows, dtype=int).reshape(len(rows), w)
+        val = {"nonzero": 5.0, "zero": 0.0, "array": np.arange(1.0, len(rows) + 1).reshape(-1, 1)}[c["val"]]
+        return (lambda: S.__setitem__(key, val)), S
+
+    def req(self, c):
+        return {"shape": c["shape"], "width": c["width"]}
+
+
 class Subdims(Op):
     """`S.subdims(region)`: one region entry per mode"""
     name = "subdims"
@@ -1968,7 +2208,7 @@ class Subdims(Op):
 
 
 OPS = [Dimscheck(), Ttv(), Ttm(), Mttkrp(), Innerprod(), Elementwise(), TenmatMul(), Ttt(), Contract(), Collapse(), Scale(),
-       Permute(), Reshape(), ToMat(), Constructors(), KtensorModes(), Nvecs(), Mttkrps(), Ttsv(), Symmetry(), Kmatch(), Update(), Reconstruct(), FromFunction(), MatIndex(), Misc(), Mask(), Extract(), Khatrirao(), Algorithms(), ImportData(), SpAssign(), Subdims()]
+       Permute(), Reshape(), ToMat(), Constructors(), KtensorModes(), Nvecs(), Mttkrps(), Ttsv(), Symmetry(), Kmatch(), Update(), Reconstruct(), FromFunction(), MatIndex(), Misc(), Mask(), Extract(), Khatrirao(), Algorithms(), ImportData(), SpAssign(), SpSetSubs(), Subdims()]
 OPS_BY_NAME = {o.name: o for o in OPS}
 
 # ---------------------------------------------------------------------------------------------
@@ -2056,7 +2296,10 @@ class Malformed(Family):
                 "C19_rejects_import_data", "C19_rejects_from_aggregator_extents", "C19_rejects_sptensor_extents",
                 "C19_accepts_sptensor_extents", "C19_rejects_ttsv_multiplicand",
                 "C19_rejects_ttensor_components", "C19_rejects_ktensor_typed", "C19_rejects_subdims",
-                "C19_rejects_sp_assign", "C19_receiver_unchanged_sp_assign")
+                "C19_rejects_sp_assign", "C19_receiver_unchanged_sp_assign", "C19_rejects_ttv_multiplicand",
+                "C19_rejects_khatrirao_order", "C19_rejects_sptensor_given", "C19_rejects_sptenmat_given",
+                "C19_rejects_nonvector", "C19_rejects_shape_array", "C19_rejects_tenfun_arity",
+                "C19_rejects_set_subs_width", "C19_receiver_unchanged_set_subs_width")
 
     def gen(self, rng, tier):
         out = []
@@ -2175,13 +2418,19 @@ SUPPORTED.update({
     ("sumtensor", "__init__:only"): _HOLDERS4, ("sumtensor", "__init__:second"): _HOLDERS4,
     ("cp_als", "data"): _HOLDERS4 | {"sumtensor"}, ("cp_apr", "data"): {"tensor", "sptensor"},
     ("tucker_als", "data"): {"tensor", "sptensor"}, ("hosvd", "data"): {"tensor"}, ("gcp_opt", "data"): {"tensor", "sptensor"},
+    # the object handed to export_data (documented: tensor, sptensor, ktensor, matrix)
+    ("export_data", "data"): {"tensor", "sptensor", "ktensor", "ndarray", "carray"},
 })
 #: selectors / scalars of another type, for the operations that take a selector
-EXTRA_KINDS = {("ktensor", "extract"): ("float", "set")}
+#: iterables that are not lists (the documented operand of `sumtensor +` is a tensor or a LIST of tensors): a generator
+#: / tuple of fitting tensors, empty containers (nothing in them is of a wrong type)
+_ITERABLES = ("generator", "emptygen", "emptytuple", "emptydict", "emptyset", "emptystr")
+EXTRA_KINDS = {("ktensor", "extract"): ("float", "set"), ("sumtensor", "__add__"): _ITERABLES,
+               ("sumtensor", "__radd__"): _ITERABLES, ("export_data", "data"): ("float", "set", "int", "emptytuple")}
 
 
 def mk_receiver(r, cls, s, nnz=None):
-    if cls in ("cp_als", "cp_apr", "tucker_als", "hosvd", "gcp_opt"):
+    if cls in ("cp_als", "cp_apr", "tucker_als", "hosvd", "gcp_opt", "export_data"):
         return None
     if cls == "tenmat":
         return mk_dense(r, s).to_tenmat(np.array([0]))
@@ -2196,11 +2445,18 @@ def mk_operand(r, kind, s, recv):
     shape = tuple(recv.shape) if hasattr(recv, "shape") and not isinstance(recv, ttb.sumtensor) else tuple(s)
     return {"str": lambda: "a", "none": lambda: None, "list": lambda: [1.0, 2.0], "dict": lambda: {"a": 1},
             "carray": lambda: np.ones(shape) * (1 + 2j), "ndarray": lambda: np.ones(shape) * 2.0,
-            "float": lambda: 1.5, "set": lambda: {0}}[kind]()
+            "float": lambda: 1.5, "set": lambda: {0}, "int": lambda: 3,
+            "generator": lambda: (t for t in [mk_dense(r, s)]), "emptygen": lambda: (t for t in []),
+            "emptytuple": lambda: (), "emptydict": lambda: {}, "emptyset": lambda: set(), "emptystr": lambda: ""}[kind]()
 
 
 def unsupported_thunk(recv, cls, method, o, s):
     N = len(s)
+    if cls == "export_data":
+        def export():
+            with tempfile.TemporaryDirectory() as d:
+                return ttb.export_data(o, os.path.join(d, "x.tns"))
+        return export
     if method == "data":
         from pyttb.gcp.handles import Objectives
         from pyttb.gcp.optimizers import LBFGSB
@@ -2291,5 +2547,100 @@ class Unsupported(Family):
         return out
 
 
+# ---------------------------------------------------------------------------------------------
+# reads of a sparse tensor by a key with an out-of-range entry in an index list (reference: NumPy)
+# ---------------------------------------------------------------------------------------------
+class SparseRead(Family):
+    """`S[key]` where one mode of the key is a LIST with an entry outside the mode (first, middle or last entry; =
+    extent, > extent, < -extent) and the other modes are slices / in-range lists / integers.  The reference is the
+    same key applied to the dense array (`A[np.ix_(...)]` raises IndexError).  pyttb looks at an index list only
+    while renumbering the nonzeros it found, so the demand is made where the region named by the in-range entries
+    holds a stored nonzero (the receivers are mostly full); an answered request on an all-zero region is tagged
+    `answered-oob-read:no-nonzero-in-region` (reads by key are property C04's)."""
+    name = "sparse_read"
+    theorems = ()
+
+    def gen(self, rng, tier):
+        out = []
+        shapes = [x for x in SHAPES if gen.numel(x) > 1] + [[2, 2], [3, 2]]
+        if tier == "quick":
+            shapes = rng.sample(shapes, 5) + [[2, 2]]
+        for s in shapes:
+            N = len(s)
+            for k in range(N):
+                for nnz in ("full", "half", 0):
+                    for rest in ("slice", "list", "int"):
+                        inr = [rng.randrange(s[k]) for _ in range(3)]
+                        out.append({"shape": s, "nnz": nnz, "mode": k, "list": inr, "rest": rest, "bad": None})
+                        for pos in (0, 1, 2):
+                            for oob in (s[k], s[k] + 3, -s[k] - 1):
+                                lst = list(inr)
+                                lst[pos] = oob
+                                out.append({"shape": s, "nnz": nnz, "mode": k, "list": lst, "rest": rest,
+                                            "bad": "index list entry out of range"})
+                        out.append({"shape": s, "nnz": nnz, "mode": k, "list": [s[k], inr[0]], "rest": rest,
+                                    "bad": "index list entry out of range"})
+        return out
+
+    @staticmethod
+    def build(c):
+        r = _rng(c)
+        s = c["shape"]
+        S = mk_sparse(r, s, {"full": gen.numel(s), "half": None, 0: 0}[c["nnz"]])
+        key, sets = [], []
+        for m, e in enumerate(s):
+            if m == c["mode"]:
+                key.append(list(c["list"]))
+                sets.append({x for x in c["list"] if 0 <= x < e})
+            elif c["rest"] == "slice":
+                key.append(slice(None))
+                sets.append(set(range(e)))
+            elif c["rest"] == "list":
+                l = sorted(r.sample(range(e), max(1, e - 1)))
+                key.append(l)
+                sets.append(set(l))
+            else:
+                i = r.randrange(e)
+                key.append(i)
+                sets.append({i})
+        return S, tuple(key), sets
+
+    def evaluate(self, cases):
+        out = []
+        for c in cases:
+            S, key, sets = self.build(c)
+            before = snap(S)
+            A = S.to_tensor().data
+            try:
+                A[np.ix_(*[np.arange(e)[k] if isinstance(k, slice) else np.atleast_1d(k) for k, e in zip(key, c["shape"])])]
+                ref_raises = False
+            except IndexError:
+                ref_raises = True
+            res = call(lambda: S[key[0] if len(key) == 1 else key])
+            raised = "reject" in res
+            hit = any(all(int(x) in st for x, st in zip(row, sets)) for row in np.asarray(S.subs).reshape(-1, len(c["shape"]))) if S.subs.size else False
+            tags = ["sparse_read", f"rest:{c['rest']}", f"nnz:{c['nnz']}", "raise" if raised else "answer",
+                    "ill-formed" if ref_raises else "well-formed", "region:nonzero" if hit else "region:all-zero"]
+            impl = {"raised": raised, "exc": res.get("exc", "")}
+            spec = {"pre": not ref_raises}
+            if (c["bad"] is None) == ref_raises:
+                v = Verdict("corr", f"generator labels the key {c['bad']}, NumPy says raises={ref_raises}", impl, spec, spec, tags)
+            elif snap(S) != before:
+                v = Verdict("violation", "sparse-read|a read changed its receiver", impl, spec, spec, tags)
+            elif ref_raises and not raised and hit:
+                v = Verdict("violation", f"sparse-read|index list {c['list']} of mode {c['mode']} (extent {c['shape'][c['mode']]}) "
+                            "has an out-of-range entry, NumPy raises IndexError, the sparse tensor answered", impl, spec, spec, tags)
+            elif ref_raises and not raised:
+                tags.append("answered-oob-read:no-nonzero-in-region")
+                v = Verdict("ok", "", impl, spec, spec, tags, nontrivial=False)
+            elif not ref_raises and raised:
+                tags.append("over-rejected:sparse_read")
+                v = Verdict("ok", "", impl, spec, spec, tags, nontrivial=False)
+            else:
+                v = Verdict("ok", "", impl, spec, spec, tags, nontrivial=True)
+            out.append(v)
+        return out
+
+
 def families():
-    return [Malformed(), Unsupported()]
+    return [Malformed(), Unsupported(), SparseRead()]
